@@ -9,6 +9,7 @@ import ShVerif.Proofs.L4Single
 import ShVerif.Proofs.L4ParseWF
 import ShVerif.Proofs.L4Fix
 import ShVerif.Proofs.L4Walk
+import ShVerif.Proofs.L4WalkN
 import ShVerif.Props.C01
 namespace ShVerif.Props.C02
 open ShVerif ShVerif.L4
@@ -301,14 +302,14 @@ theorem idempotent_word (o : Opts) (w : Word) (hw : w.wf = true) (b : Bytes) (hp
      commands with literal and single-quoted words, `!`, `&`, `;`, and `&&`/`||`/`|` lists of any
      nesting and any layout.
 
-  What blocks subshells and blocks: step 1 is false there as stated — the printer reads `( … )`
-  positions not only through "is this token after the current line": `lp.line != s.pos.line`,
-  `closing.line > p.line ∧ endLine < closing.line` and `openLine == closeLine` compare positions of
-  the *first* tree with each other, and the transcript answers them differently exactly in the two
-  recorded defects (`idempotent_fails`: `( (s)` NEWLINE `)`, POSIX `((a;b))`).  A proof has to
-  carry, through `R`, which of these comparisons agree, i.e. the side condition `noParenParen` of
-  `idempotent_partial_statement`; steps 2's lexer and parser lemmas already cover all of F0 except
-  `parse_pk` and the walk, which do not enter `( )` and `{ }`. -/
+  Subshells and blocks: see the section "subshells and blocks, under a side condition" below
+  (`idempotent_nested_partial`).  There the printer reads positions not only through "is this token
+  after the current line": `lp.line != s.pos.line`, `closing.line > p.line ∧ endLine <
+  closing.line` and `openLine == closeLine` compare positions of the *first* tree with each other,
+  and the transcript answers them differently exactly in the two recorded defects
+  (`idempotent_fails`: `( (s)` NEWLINE `)`, POSIX `((a;b))`); the transcript relation therefore
+  carries the agreement of these comparisons, and the executable side condition `nestOKFile`
+  provides it. -/
 
 /-- **The printer is a fixpoint on its own layout.** -/
 theorem reprint_fixpoint (o : Opts) (f f' : File) (hsl : o.singleLine = false) (t : trFileB o f f' = true) :
@@ -407,12 +408,75 @@ example : ∃ f, parse .bash "a \\\n  b &\n\n\nc 'x\ny' &&\n d | e\n! f".toUTF8.
     rw [h] at this
     exact this
 
+/-! ## Without SingleLine: subshells and blocks, under a side condition
+
+  `nestOKFile o f` (executable, `Model/L4Transcript.lean`) runs the printer on `f` and checks, at
+  every subshell and block, that the comparisons the printer makes between positions of the tree —
+  is the first statement on the line of `(` (`lp.line != s.pos.line`, when it starts with `(`),
+  is the closing token below the end of the list (`closing.line > p.line ∧ endLine < closing.line`),
+  is the single statement on a later line than the printer's counter (`stmtList`'s `sep`), are
+  `(` and `)` on one line (`closingParen`, when the single statement ends in `)`) — come out the
+  same on the lines where the tokens are actually written; for a block also that the printer is
+  past its first line.  Programs without subshells and blocks satisfy it (`nestOKFile_of_lin`), the
+  two recorded defects do not (`nestOK_excludes_defects`).
+
+  `idempotent_nested_partial`: the property's own statement on all of F0 under this condition.
+  Proof: `reprint_fixpoint_rel` now covers subshells and blocks (the transcript relation carries the
+  agreement of these comparisons), `Proofs/L4WalkN.lean` extends the walk (`transcriptN`): `(`, `)`,
+  `{`, `}` and the `;` that `semiRsrv` writes before `}` (which the parser gives to the last
+  statement) are tokens of the run; `end_stmt/end_cmd/end_loop` show that the end line of a re-read
+  statement is the line on which the first run finished it. -/
+
+/-- **Idempotence without SingleLine on all of F0 under the side condition `nestOKFile`** — from
+    source text, every option set without SingleLine, every variant, no hypothesis on any tree. -/
+theorem idempotent_nested_partial (o : Opts) (l : Lang) (src : Bytes) (f f' : File) (b b' : Bytes)
+    (hsrc : parse l src = .ok f) (hnok : nestOKFile o f = true) (hsl : o.singleLine = false)
+    (hp : printFile o f = .ok b) (hq : parse l b = .ok f') (hp' : printFile o f' = .ok b') : b' = b := by
+  have key : printFile o f' = .ok b := by
+    by_cases hne : f.stmts = .nil
+    · have hlin : f.stmts.lin = true := by rw [hne]; rfl
+      exact reprint_linear o l src f f' b hsrc hlin hsl hp hq
+    · exact L4.idempotent_nested o l src f f' b hsrc hnok hne hsl hp hq
+  rw [key] at hp'
+  simp only [Except.ok.injEq] at hp'
+  exact hp'.symm
+
+/-- the second pass succeeds -/
+theorem reprint_nested_partial (o : Opts) (l : Lang) (src : Bytes) (f f' : File) (b : Bytes)
+    (hsrc : parse l src = .ok f) (hnok : nestOKFile o f = true) (hsl : o.singleLine = false)
+    (hp : printFile o f = .ok b) (hq : parse l b = .ok f') : printFile o f' = .ok b := by
+  by_cases hne : f.stmts = .nil
+  · have hlin : f.stmts.lin = true := by rw [hne]; rfl
+    exact reprint_linear o l src f f' b hsrc hlin hsl hp hq
+  · exact L4.idempotent_nested o l src f f' b hsrc hnok hne hsl hp hq
+
+/-- programs without subshells and blocks satisfy the side condition -/
+theorem nestOK_of_linear (o : Opts) (f : File) (h : f.stmts.lin = true) : nestOKFile o f = true :=
+  L4.nestOKFile_of_lin o f h
+
+/-- the two recorded defects are outside the side condition, as they must be -/
+theorem nestOK_excludes_defects :
+    nestOKFile {} trailingBlankWitness = false ∧ nestOKFile {} closingParenWitness = false := by
+  decide +kernel
+
+/-- the side condition holds for ordinary nested programs: subshells and blocks on one line and
+    over several lines, nested in each other and in `&&`/`|` lists -/
+example :
+    (match parse .bash "( a; b )\n{ c; }\n(\n a &&\n b\n)\n{ c\n d; }\nx | ( y )\n{ (a); } && ( b\n)\n".toUTF8.toList with
+     | .ok f => nestOKFile {} f && !f.stmts.lin
+     | _ => false) = true := by
+  decide +kernel
+
 /-! ## Stated, not proved
 
-  Idempotence without SingleLine on the part of F0 *with* subshells and blocks that avoids the two
-  recorded shapes (without subshells and blocks it is `idempotent_linear`).  A definition, not a
-  theorem: the printer is not a fixpoint on transcripts there without a side condition (see
-  above); checked by execution (`specidem` ops: model and Go code side by side) on every run. -/
+  Idempotence without SingleLine under the *syntactic* side condition `noParenParen` (no subshell
+  whose single statement starts or ends with a parenthesis).  A definition, not a theorem: what is
+  proved is `idempotent_nested_partial`, whose side condition `nestOKFile` is executable but runs
+  the printer; that `noParenParen` (with `posMono`, no Minify) implies `nestOKFile` is not proved —
+  it needs the printer's line counter to be in step with the source lines at every `(` and `{`
+  (the `Pre` invariants of `Proofs/L4PrintGen.lean`) and fails for exotic layouts such as
+  `{ a \` NEWLINE `\` NEWLINE `\` NEWLINE `; }` (a `;` three continuation lines down: `nestOKFile`
+  is false and the model's two passes differ).  Checked by execution (`specidem`) on every run. -/
 
 def idempotent_partial_statement : Prop :=
   ∀ (o : Opts) (l : Lang) (f f' : File) (b : Bytes), f.wf = true → posMono f → f.stmts.noParenParen = true →
